@@ -64,8 +64,10 @@ def with_crc(body: bytes) -> bytes:
 # ---------------------------------------------------------------------------------------------
 class Kind:
     def __init__(self, name: str, decode: Callable[[bytes, Dict[str, Any]], Any], fields: Callable[[Any], Any],
-                 length: Callable[[Any], int], declared: Optional[Callable[[bytes], int]] = None):
+                 length: Callable[[Any], int], declared: Optional[Callable[[bytes], int]] = None,
+                 trailer: Optional[Callable[[Any], Any]] = None):
         self.name = name
+        self.trailer = trailer     # the checksum attribute the decoded object exposes (PUS: `crc16`), if any
         self.decode = decode
         self.fields = fields
         self.length = length
@@ -93,13 +95,14 @@ def _reg(k: Kind):
 
 
 _reg(Kind("sph", lambda b, c: SpacePacketHeader.unpack(b), c01._fields, lambda h: int(h.header_len)))
-_reg(Kind("tc", lambda b, c: PusTc.unpack(b), c02._tc_fields, lambda t: int(t.packet_len)))
-_reg(Kind("tm", lambda b, c: PusTm.unpack(b, c.get("ts_len", 0)), c03._tm_fields, lambda t: int(t.packet_len)))
+_reg(Kind("tc", lambda b, c: PusTc.unpack(b), c02._tc_fields, lambda t: int(t.packet_len), trailer=lambda t: t.crc16))
+_reg(Kind("tm", lambda b, c: PusTm.unpack(b, c.get("ts_len", 0)), c03._tm_fields, lambda t: int(t.packet_len),
+          trailer=lambda t: t.crc16))
 _reg(Kind("s17", lambda b, c: Service17Tm.unpack(b, c.get("ts_len", 0)), lambda s: c03._tm_fields(s.pus_tm),
-          lambda s: int(s.pus_tm.packet_len)))
+          lambda s: int(s.pus_tm.packet_len), trailer=lambda s: s.pus_tm.crc16))
 _reg(Kind("s1", lambda b, c: Service1Tm.unpack(b, UnpackParams(c.get("ts_len", 0), c.get("step_bytes", 0),
                                                               c.get("err_bytes", 0))),
-          c15._s1_fields, lambda s: int(s.pus_tm.packet_len)))
+          c15._s1_fields, lambda s: int(s.pus_tm.packet_len), trailer=lambda s: s.pus_tm.crc16))
 _reg(Kind("cds", lambda b, c: CdsShortTimestamp.unpack(b), _cds_fields, lambda s: int(s.len_packed)))
 _reg(Kind("req_id", lambda b, c: RequestId.unpack(b), c15._req_fields, lambda r: len(bytes(r.pack()))))
 _reg(Kind("pfe", lambda b, c: PacketFieldEnum.unpack(b, c.get("pfc", 8)), c15._pfe_fields, lambda f: int(f.len())))
@@ -167,6 +170,12 @@ def op_c09_unit(a):
     v = _verdict(k, cfg, raw[:m], f)
     if v != "same":
         raise SelfCheckFailure(what + f"decoding only the first {m} octets (the unit itself) gives '{v}', not the object decoded from the longer buffer")
+    if k.trailer is not None:
+        # the checksum the decoded object exposes is part of the result: it is the unit's own trailer,
+        # whatever follows in the buffer
+        t = k.trailer(obj)
+        if t is not None and bytes(t) != raw[m - 2:m]:
+            raise SelfCheckFailure(what + f"the decoded object's crc16 ({bytes(t).hex()}) is not the trailer of the unit ({raw[m - 2:m].hex()})")
     v = _verdict(k, cfg, raw[:m] + alt, f)
     if v != "same":
         raise SelfCheckFailure(what + f"the unit followed by other octets ({len(alt)}) decodes to '{v}', not to the unit")
